@@ -335,9 +335,10 @@ func Evolve(envF *model.Env, tf *model.Type, envT *model.Env, tt *model.Type, v 
 			}
 			return unspec("null into a union without null")
 		}
-		key := envF.Canon(c)
 		for j, x := range ct {
-			if x != nil && envT.Canon(x) == key {
+			// the same case: equal after alias resolution in either model (a type renamed through
+			// an alias keeps its old name as an alias in the newer model)
+			if x != nil && ((resolvable(envT, c) && envT.Canon(c) == envT.Canon(x)) || (resolvable(envF, x) && envF.Canon(c) == envF.Canon(x))) {
 				r := Evolve(envF, c, envT, x, v.Items[0])
 				if r.S != Exactly {
 					return r
@@ -345,7 +346,7 @@ func Evolve(envF *model.Env, tf *model.Type, envT *model.Env, tt *model.Type, v 
 				return exactly(&value.Value{K: value.Union, Case: j, Items: []*value.Value{r.V}})
 			}
 		}
-		return mustError("union case " + key + " does not exist in the other version")
+		return mustError("union case " + envF.Canon(c) + " does not exist in the other version")
 	case uf.Kind == model.KVector && ut.Kind == model.KVector:
 		out := &value.Value{K: value.Seq, Items: []*value.Value{}}
 		for _, x := range v.Items {
@@ -361,6 +362,17 @@ func Evolve(envF *model.Env, tf *model.Type, envT *model.Env, tt *model.Type, v 
 		return exactly(v)
 	}
 	return unspec(fmt.Sprintf("conversion between %s and %s is not documented", envF.Canon(uf), envT.Canon(ut)))
+}
+
+// resolvable: every named type mentioned in t exists in env.
+func resolvable(env *model.Env, t *model.Type) bool {
+	ok := true
+	model.Walk(t, func(x *model.Type) {
+		if x.Kind == model.KRef && env.Lookup(x.Ns, x.Name) == nil {
+			ok = false
+		}
+	})
+	return ok
 }
 
 // sameDefs: every named type reachable from the type (transitively, through aliases, record
